@@ -224,7 +224,17 @@ where
   curInfo' (vf : VF) : LinkInfo := if vf.seekable then (if vf.ready ≥ STREAMSET then vf.infos[vf.current_link.toNat]! else vf.infos[0]!) else vf.infos[0]!
   sizesOf' (vf : VF) : Block.Sizes := { bs0 := (curInfo' vf).bs0, bs1 := (curInfo' vf).bs1 }
 
+/-- `step`, then the consistency check `decWFb` on every open seekable handle: a broken one marks the answer line -/
+def stepChecked (s : St) (toks : List String) : St × List String :=
+  let (s', out) := step s toks
+  let bad := s'.slots.any fun sl => sl.isOpen && sl.vf.seekable && sl.vf.ready ≥ OPENED && !decWFb sl.vf
+  if bad then
+    match out.reverse with
+    | last :: rest => (s', (((last ++ " wfbroken=1") :: rest).reverse))
+    | [] => (s', out)
+  else (s', out)
+
 def main : IO Unit := do
-  lineLoop (← IO.getStdin) (← IO.getStdout) ({} : St) step
+  lineLoop (← IO.getStdin) (← IO.getStdout) ({} : St) stepChecked
 
 end Vorbis.Driver.C07
